@@ -2,7 +2,7 @@
   C04 model driver. Line protocol (S-expressions, one per line; see Wire.lean for the shapes):
     (schema …)         → ok                      -- the schema description used by later lines
     (check (doc …))    → (r (spec valid|invalid rule…) (model ok|fuel slot…) (hyp ok|bad name…))
-       hyp: the input hypotheses of the assembly theorems (`hypFailures`, Hyp.lean) for this case
+       hyp: the input hypotheses of the assembly / verdict theorems (`hypFailures2`, Hyp2.lean) for this case
        slot := (s alt…)          -- one reported error; several alts = Go's map iteration picks one
        alt  := (p|x "message" "L:C"…)   -- p primary, x secondary (all errors *before* the filter
                                         -- of validator.go:82-91; the harness applies the filter)
@@ -13,7 +13,7 @@ import ApiFu.Common.Loop
 import ApiFu.C04.Wire
 import ApiFu.C04.Spec
 import ApiFu.C04.Model
-import ApiFu.C04.Hyp
+import ApiFu.C04.Hyp2
 
 open ApiFu ApiFu.C04
 
@@ -37,7 +37,7 @@ def handle (st : St) (line : String) : St × String :=
            e.locs.map fun l => Sexp.atom (toString l.line ++ ":" ++ toString l.col))
        let model := Sexp.node "model" (Sexp.atom (if o.fuelOut then "fuel" else "ok") ::
          o.slots.map fun sl => Sexp.node "s" (sl.alts.map alt))
-       let hf := hypFailures S D
+       let hf := hypFailures2 S D
        let hyp := Sexp.node "hyp" (Sexp.atom (if hf.isEmpty then "ok" else "bad") :: hf.map Sexp.atom)
        (st, toString (Sexp.node "r" [spec, model, hyp]))
      | none, _ => (st, "no-schema")
